@@ -99,6 +99,6 @@ void harness(void) {
 	__CPROVER_assert(g_sock_open == 0 && g_sock_closed == g_sock_made && g_sock_made <= 1, "the socket is closed exactly once on every path");
 	__CPROVER_assert(g_ai_freed == ((g_gai_ok && g_ai_n > 0) ? 1 : 0), "the address list is released exactly once");
 	REACH("returned"); if (res == KSI_OK) REACH("response read"); if (res == KSI_OK && g_ts_total == 0xffff + 4) REACH("largest element");
-	if (res == KSI_NETWORK_RECIEVE_TIMEOUT) REACH("timeout"); if (res == KSI_OK && g_req_len == REQMAX) REACH("request of maximal bounded length");
+	if (res == KSI_NETWORK_RECIEVE_TIMEOUT) REACH("timeout"); if (res == KSI_OUT_OF_MEMORY) REACH("allocation failure (C19)"); if (res == KSI_OK && g_req_len == REQMAX) REACH("request of maximal bounded length");
 }
 #endif
